@@ -417,6 +417,8 @@ class BitFieldEx(Field):
         newf.instance = obj
         return newf
 
+    concat = BitField.concat
+
     def __repr__(self):
         fmt = self.typename
         r = "<Field %s>" % str(["%s:%s"%(n,s) for n,s in zip(self.subnames,
